@@ -20,11 +20,13 @@ HkdfExpand(hd, prk, info, L) ==          \* L <= 255 * HashLen
       step(acc, i) == LET t == Hmac(hd, prk, acc[1] \o info \o <<i>>) IN <<t, acc[2] \o t>>
   IN SubSeq(FoldLeft(step, <<<<>>, <<>>>>, Rng(1, n))[2], 1, L)
 \* RFC 8018 5.2 with PRF = HMAC-hd; c >= 1; block index as 4 big-endian bytes
+Int4BE(i) == <<(i \div 16777216) % 256, (i \div 65536) % 256, (i \div 256) % 256, i % 256>>          \* INT(i), i < 2^31 here
+PbkdfBlock(hd, pw, salt, c, i) ==         \* T_i = U_1 xor ... xor U_c
+  LET u1 == Hmac(hd, pw, salt \o Int4BE(i))
+      it(acc, j) == LET u == Hmac(hd, pw, acc[1]) IN <<u, XorBytes(acc[2], u)>>
+  IN FoldLeft(it, <<u1, u1>>, Rng(2, c))[2]
 Pbkdf2(hd, pw, salt, c, dkLen) ==
   LET hl == HOut(hd)
       n == (dkLen + hl - 1) \div hl
-      F(i) == LET u1 == Hmac(hd, pw, salt \o <<0, 0, (i \div 256) % 256, i % 256>>)
-                  it(acc, j) == LET u == Hmac(hd, pw, acc[1]) IN <<u, XorBytes(acc[2], u)>>
-              IN FoldLeft(it, <<u1, u1>>, Rng(2, c))[2]
-  IN SubSeq(FoldLeft(LAMBDA acc, i: acc \o F(i), <<>>, Rng(1, n)), 1, dkLen)
+  IN SubSeq(FoldLeft(LAMBDA acc, i: acc \o PbkdfBlock(hd, pw, salt, c, i), <<>>, Rng(1, n)), 1, dkLen)
 =============================================================================
